@@ -26,6 +26,7 @@ def run(ctx):
     shown = {}
     for h in hists:
         pre = gc.EMPTY
+        prev_lists = []
         for ix, st in enumerate(h['steps']):
             lists = (st.get('reads') or {}).get('tasks', [])
             heap = st['post']['heap']
@@ -42,20 +43,54 @@ def run(ctx):
                         break
                 if bad:
                     break
+            if not bad:
+                bad = released_clause(st, pre, prev_lists)
+            prev_lists = lists
             if bad:
                 k = st['op'][0]
                 shown[k] = shown.get(k, 0) + 1
                 if shown[k] <= 2:
                     origin = ('corpus: ' + h['corpus']) if 'corpus' in h else 'generated history, seed %s' % h.get('seed')
-                    ctx.failure('C11/%s/owner-disagrees-with-WBS.tasks' % k,
-                                'C11/%s/owner-disagrees-with-WBS.tasks: object %d reports WBS %r but %s listed by WBS.tasks of WBS %d, '
-                                'after %s (%s)' % (k, bad[1], bad[2], 'is' if bad[3] else 'is not', bad[0], gc.describe_call(st), origin),
+                    sig = 'owner-disagrees-with-WBS.tasks' if len(bad) == 4 else 'removed-task-not-released'
+                    text = ('object %d reports WBS %r but %s listed by WBS.tasks of WBS %d' % (bad[1], bad[2], 'is' if bad[3] else 'is not', bad[0])
+                            if len(bad) == 4 else bad[4])
+                    ctx.failure('C11/%s/%s' % (k, sig),
+                                'C11/%s/%s: %s, after %s (%s)' % (k, sig, text, gc.describe_call(st), origin),
                                 {'kind': 'ops', 'items': gc.items_of(h, ix), 'origin': origin, 'call_index': ix, 'op': st['op'],
                                  'how': st['how'], 'pre': pre, 'observed': {'reads': st['reads'], 'post': st['post']}})
                 break                       # the state is ill-formed from here on
             pre = st['post']
     if shown:
         ctx.coverage.setdefault('distribution', {})['owner_vs_tasks_by_call_site'] = shown
+
+
+def released_clause(st, pre, prev_lists):
+    """The last sentence of the property on the observations: a task taken out by a call that RETURNED - WBS.remove of a
+    task the WBS listed, list removal, being left out of a children / roots assignment - reports no owner afterwards and
+    is listed by no WBS.tasks.  Returns None or a 5-tuple whose last element says what is wrong."""
+    if st.get('code', 0) != 0 or not pre or 'heap' not in pre:
+        return None
+    op = st['op']
+    k = op[0]
+    heap0, heap = pre['heap'], st['post']['heap']
+    lists = (st.get('reads') or {}).get('tasks', [])
+    out = []
+    if k == 'WbsRemove' and op[2] is not None and op[1] < len(prev_lists) and op[2] in prev_lists[op[1]]:
+        out = [op[2]]
+    elif k == 'ChRemove' and op[1] < len(heap0) and op[2] in heap0[op[1]][2]:
+        out = [op[2]]
+    elif k == 'SetChildren' and op[1] < len(heap0):
+        keep = set(x for x in op[2] if x is not None)
+        out = [c for c in heap0[op[1]][2] if c not in keep]
+    for x in out:
+        if x >= len(heap):
+            continue
+        if heap[x][5] is not None:
+            return (heap[x][5], x, heap[x][5], True, 'object %d was taken out by the call but still reports WBS %r' % (x, heap[x][5]))
+        for wi, l in enumerate(lists):
+            if l != [10 ** 6] and x in l:
+                return (wi, x, None, True, 'object %d was taken out by the call but is still listed by WBS.tasks of WBS %d' % (x, wi))
+    return None
 
 
 def replay(ctx, rep):
